@@ -197,7 +197,22 @@ func genTable(r *Rng, u *Universe, name, stream string, o SchemaOpts) TableDef {
 		} else {
 			fd.E = genFieldExpr(r, u, t.Fields, 2)
 		}
+		// two fields with the same expression are a separate subject (C06
+		// reports that grouped queries double-count them): keep expressions
+		// unique within a table
+		dup := false
+		for _, ex := range t.Fields {
+			if resolvedSQL(&t, ex.E) == resolvedSQL(&t, fd.E) {
+				dup = true
+			}
+		}
+		if dup {
+			continue
+		}
 		t.Fields = append(t.Fields, fd)
+	}
+	if len(t.Fields) == 0 {
+		t.Fields = append(t.Fields, FieldDef{Name: "f0", E: &FieldExpr{Kind: "agg", Fn: "SUM", X: "x"}})
 	}
 	if !o.NoWhere && r.Bool(0.45) {
 		t.Where = genPred(r, u, 2)
@@ -447,4 +462,29 @@ func fixUnknown(p *Point, u *Universe, tables []TableDef) {
 			return
 		}
 	}
+}
+
+// resolvedSQL renders an expression with references to earlier fields
+// replaced by their definitions.
+func resolvedSQL(t *TableDef, e *FieldExpr) string {
+	switch e.Kind {
+	case "ref":
+		if f := t.field(e.Ref); f != nil && !(f.E.Kind == "ref" && f.E.Ref == e.Ref) {
+			return resolvedSQL(t, f.E)
+		}
+		return "SUM(" + e.Ref + ")"
+	case "bin":
+		return "(" + resolvedSQL(t, e.L) + " " + e.Op + " " + resolvedSQL(t, e.R) + ")"
+	case "if":
+		return "IF(" + e.Cond.SQL() + ", " + resolvedSQL(t, e.Sub) + ")"
+	case "agg":
+		if e.Fn == "WAVG" {
+			// zenodb identifies WAVG(x, w) and AVG(x) with each other (both print
+			// as AVG(x)); a table holding both is a separate subject (C06)
+			c := *e
+			c.Fn, c.W = "AVG", ""
+			return c.SQL()
+		}
+	}
+	return e.SQL()
 }
